@@ -7,9 +7,9 @@ W = 16
 def jobs(tier):
     q = tier == "quick"
     return [
-        Job("c05_budget", "flt-asan", "random", workers=W, cases=600 if q else 12000, maxtime=40 if q else 500),
-        Job("c05_ms", "flt-asan", "random", workers=W, cases=150 if q else 3000, maxtime=40 if q else 400),
-        #Job("c05_cvbr", "flt-opt", "random", workers=W, cases=20 if q else 400, maxtime=40 if q else 400, refs=("ref-flt",)),
+        Job("c05_budget", "flt-asan", "random", workers=W, cases=1000 if q else 12000, maxtime=60 if q else 600),
+        Job("c05_ms", "flt-asan", "random", workers=W, cases=250 if q else 3000, maxtime=60 if q else 400),
+        Job("c05_cvbr", "flt-opt", "random", workers=W, cases=48 if q else 600, maxtime=60 if q else 400, refs=("ref-flt",)),
     ]
 
 
